@@ -1,8 +1,12 @@
 //! History driver (engine E1) and the Memvid-level monitors.
 //! usage: mvdrive <mode> --seed N --scratch DIR --out report.json [mode options]
 
+pub mod cards;
+pub mod derived;
 pub mod hist;
+pub mod search;
 pub mod sidecar;
+pub mod tickets;
 pub mod timeline;
 pub mod vector;
 pub mod world;
@@ -120,6 +124,60 @@ pub fn main() {
             let sizes: Vec<usize> = args.str("sizes").unwrap_or("1,2,30,120").split(',').filter_map(|s| s.parse().ok()).collect();
             let mut rep = Report::new("C14", &format!("vector-membership[{config}]"), seed, "histories of embedded / plain puts, updates with and without a new embedding (with and without payload), deletes, until the target number of active embedded frames is reached; membership, stats().vector_count, frame_embedding and self-queries checked after commit, reopen, doctor(rebuild vec), vacuum, reopen; a case is one operation; distinct = distinct (size, history length, configuration)");
             vector::c14(&mut rep, &scratch, &mut Rng::new(seed), &sizes, config);
+            rep
+        }
+        "c24" => {
+            let seed = args.u64("seed", 1);
+            let scratch = PathBuf::from(args.str("scratch").unwrap_or("."));
+            let mut rep = Report::new("C24", "capacity", seed, "fresh memory, capacity = current payload end + delta (0..4096) granted by ticket, 2..7 incompressible puts of 1..5000 bytes with random intervening commits; after every step max(payload_offset+length) <= capacity; rejected puts leave counters unchanged; decisions compared with a twin run that commits after every put; distinct = distinct (delta, sizes, commit pattern)");
+            tickets::c24(&mut rep, &scratch, &mut Rng::new(seed), args.u64("cases", 20));
+            rep
+        }
+        "c25" => {
+            let seed = args.u64("seed", 1);
+            let scratch = PathBuf::from(args.str("scratch").unwrap_or("."));
+            let mut rep = Report::new("C25", "tickets", seed, "histories of unsigned tickets (sequence numbers around the highest accepted, negative, i64 extremes), signed tickets (harness key installed through the cfg hook or not; one of 7 single-field tampers or none), puts, commits and reopen; a case is one step; distinct = distinct histories");
+            tickets::c25(&mut rep, &scratch, &mut Rng::new(seed), args.u64("cases", 10));
+            rep
+        }
+        "c26" => {
+            let seed = args.u64("seed", 1);
+            let scratch = PathBuf::from(args.str("scratch").unwrap_or("."));
+            let mut rep = Report::new("C26", "derived-data", seed, "histories of puts whose text carries a rule-extractable triplet with a unique name (plain and chunked, with and without instant index / enable_embedding), commits and reopens in between so that log sequence numbers and frame ids diverge; after every commit and reopen each card, enrichment record and queue entry is matched to the document the model assigned; a case is one step; distinct = distinct histories");
+            derived::c26(&mut rep, &scratch, &mut Rng::new(seed), args.u64("histories", 6));
+            rep
+        }
+        "c27b" => {
+            let seed = args.u64("seed", 1);
+            let scratch = PathBuf::from(args.str("scratch").unwrap_or("."));
+            let mut rep = Report::new("C27", "cards-persistence", seed, "histories of put_memory_card (all kinds, relations, optional dates/confidence), mesh node/edge edits, triplet-bearing puts, commits; at random points commit + close + reopen (read-write or read-only) and compare every card field and every mesh node/edge; a case is one step; distinct = distinct histories");
+            cards::c27b(&mut rep, &scratch, &mut Rng::new(seed), args.u64("histories", 8));
+            rep
+        }
+        "c09" | "c10" | "c11" | "c16" | "c28" | "c12" => {
+            let seed = args.u64("seed", 1);
+            let scratch = PathBuf::from(args.str("scratch").unwrap_or("."));
+            let corpora = args.u64("corpora", 2);
+            let queries = args.u64("queries", 30);
+            let max_docs = args.u64("max-docs", 40) as usize;
+            let mut rng = Rng::new(seed);
+            let (pid, rule) = match mode.as_str() {
+                "c09" => ("C09", "corpora of 1..max-docs documents (5..620 pseudo-words, some chunked); 6 planted words, each exactly once in 1..18 chosen documents; expected frames = active frames whose stored search text holds the word as a token; queried with and without the sketch pre-filter, before close and after reopen; a case is one query; distinct = distinct corpora"),
+                "c10" => ("C10", "random corpora with URIs under 4 scopes, tracks, tags, labels, timestamps; random query ASTs (words, phrases, field terms, date ranges, NOT/AND/OR) x uri/scope filters x snippet sizes x top_k 0..12; every hit judged by an independent evaluator over the stored search text, filters, ranks and snippet geometry; committed state, with un-committed instant-indexed puts, after reopen; a case is one query; distinct = distinct corpora"),
+                "c11" => ("C11", "random corpora and queries; random as_of_frame / as_of_ts cut-offs with and without the sketch pre-filter; both result streams paginated to exhaustion; a case is one query pair; distinct = distinct corpora"),
+                "c16" => ("C16", "corpora of 10..max-docs documents over a 16-word vocabulary (so single words match many frames); page sizes 1..10; pages concatenated by following next_cursor vs one request with top_k 10000; a case is one query; distinct = distinct corpora"),
+                "c28" => ("C28", "committed corpora with embeddings and deletes; a battery of 24 lexical queries (exhaustively paginated, compared as sets), 6 vector queries and 4 timelines on the live handle vs reopened read-write, read-only and four doctored copies (rebuild time / lex / vec / all); hits between put and commit judged for containing the hit text; a case is one battery; distinct = distinct corpora"),
+                _ => ("C12", "corpora whose frames carry random ACL metadata (valid, missing, malformed lists, JSON-quoted, mixed case, unknown visibility) x random caller contexts x search / vec_search_with_embedding_acl / search_adaptive_acl / ask in Enforce and Audit mode; an independent reference policy decides which frames are denied; a case is one request; distinct = distinct corpora"),
+            };
+            let mut rep = Report::new(pid, &format!("search[{mode}]"), seed, rule);
+            match mode.as_str() {
+                "c09" => search::c09(&mut rep, &scratch, &mut rng, corpora, max_docs),
+                "c10" => search::c10(&mut rep, &scratch, &mut rng, corpora, queries, max_docs),
+                "c11" => search::c11(&mut rep, &scratch, &mut rng, corpora, queries, max_docs),
+                "c16" => search::c16(&mut rep, &scratch, &mut rng, corpora, queries, max_docs),
+                "c28" => search::c28(&mut rep, &scratch, &mut rng, corpora, max_docs),
+                _ => search::c12(&mut rep, &scratch, &mut rng, corpora, queries, max_docs),
+            }
             rep
         }
         "sidecar" => {
